@@ -86,6 +86,12 @@ type modelResp struct {
 	TypeMap         []string            `json:"typeMap"`
 	UniqueFragNames bool                `json:"uniqueFragNames"`
 	UniqueArgNames  bool                `json:"uniqueArgNames"`
+	Validate        []errT              `json:"validate"` // the combined model `validate` (all 24 rules as coded)
+	Side            struct {
+		SchemaInputsOk    bool `json:"schemaInputsOk"`
+		AbstractInhabited bool `json:"abstractInhabited"`
+		SideB             bool `json:"sideB"`
+	} `json:"side"`
 }
 
 // rules of worker c02b whose S is defined only for documents with unique fragment names
@@ -367,6 +373,25 @@ func main() {
 		sort.Strings(modelTM)
 		if hx.Canon(realTM) != hx.Canon(modelTM) {
 			problem("type map: real %v model %v", realTM, modelTM)
+		}
+		// the combined model `validate` (Props/C02All.all_rules_iff) against the real SpecifiedRules run
+		if hx.Canon(canonErrs(resp.Validate)) != hx.Canon(canonErrs(all.Errs)) {
+			problem("SpecifiedRules: real %v  model validate %v", canonErrs(all.Errs), canonErrs(resp.Validate))
+		}
+		// decidable side conditions of all_rules_iff
+		if !resp.Side.SchemaInputsOk {
+			problem("side condition schemaInputsOkB is false for a schema the library built")
+		}
+		switch {
+		case !resp.Side.AbstractInhabited:
+			run.Tag("all_rules_iff-side:abstract-type-without-possible-type")
+		case !resp.Side.SideB:
+			run.Tag("all_rules_iff-side:overlap-sideB-false")
+		default:
+			run.Tag("all_rules_iff-side-conditions-hold")
+			if realValid {
+				run.Tag("all_rules_iff-applies-to-accepted-document")
+			}
 		}
 		modelValid := true
 		for _, r := range rules {
